@@ -80,6 +80,7 @@ def rule_a(ctx, rid, body_filter):
     n = 0
     used = set()
     counts = {"D1": 0, "D2": 0, "borrow": 0, "table": 0}
+    seen_per_key = {}
     for s in inv:
         if body_filter and not body_filter(s.b):
             continue
@@ -97,9 +98,15 @@ def rule_a(ctx, rid, body_filter):
             continue
         row = table.get(key)
         if row:
-            used.add(key)
-            counts["table"] += 1
-            ctx.ok(rid, key, s.span, s.b.id, row, how="table")
+            seen_per_key[key] = seen_per_key.get(key, 0) + 1
+            if seen_per_key[key] <= row[1]:
+                used.add(key)
+                counts["table"] += 1
+                ctx.ok(rid, key if seen_per_key[key] == 1 else "%s/%d" % (key, seen_per_key[key]), s.span, s.b.id, row[0], how="table")
+                continue
+            ctx.violation(rid, key + "/%d" % seen_per_key[key], s.span, s.b.id,
+                          "%s may panic here: %s — the reviewed row for this key covers %d site(s) in this function and this is "
+                          "one more (a new site of the same shape needs its own review)" % (s.desc, s.text.split(":", 1)[-1][-160:], row[1]))
             continue
         cls = ""
         if s.term["k"] == "assert":
@@ -372,56 +379,73 @@ def load_loop_table():
     return rows
 
 
+def _glob(pat, s):
+    import re
+    return re.fullmatch(".*".join(re.escape(x) for x in pat.split("*")), s) is not None
+
+
 def anchor_blocks(b, lp, anchors):
-    """blocks of the loop that contain one of the anchors: 'call:<method>[(receiver-substring)]' or
-    'assign:<local>=<expr>'"""
+    """blocks of the loop that contain one of the anchors.  Anchors are written over *canonical* expressions
+    (Body.canon: parameters argN/self, multi-definition locals $k numbered per statement, single-definition locals
+    expanded), `*` is a wildcard:
+       call:<method>
+       assign:<place>=<expression>[ @ lhs > 0 | @ nonzero-step]
+       dec1:<place>                      the statement `place = place - 1`"""
     out = set()
     for x in lp.blocks:
         t = b.term(x)
         for a in anchors:
             if a.startswith("call:") and t["k"] == "call":
-                spec = a[5:]
-                m, _, recv = spec.partition("(")
-                recv = recv.rstrip(")")
-                if callee_method(t) == m and (not recv or (t["args"] and recv in norm(b.expr(t["args"][0])))):
+                if callee_method(t) == a[5:].strip():
                     out.add(x)
-            elif a.startswith("assign:"):
-                spec, _, cond = a[7:].partition(" @ ")
-                lhs, _, rhs = spec.partition("=")
+            elif a.startswith("assign:") or a.startswith("dec1:"):
                 for st in b.stmts(x):
-                    if st["k"] == "assign" and "use" in st["rv"]:
-                        if norm(b.expr(st["lhs"])) == lhs and norm(b.expr(st["rv"]["use"])) == rhs:
-                            if _anchor_condition(b, lp, x, st, cond):
-                                out.add(x)
+                    if st["k"] != "assign" or "use" not in st["rv"]:
+                        continue
+                    env = {}
+                    lhs_c = norm(b.canon(st["lhs"], env=env))
+                    rhs_c = norm(b.canon(st["rv"]["use"], env=env))
+                    if a.startswith("dec1:"):
+                        if _glob(a[5:].strip(), lhs_c) and rhs_c == "(%s - 1_usize)" % lhs_c:
+                            out.add(x)
+                        continue
+                    spec, _, cond = a[7:].partition(" @ ")
+                    lhs, _, rhs = spec.partition("=")
+                    if _glob(lhs.strip(), lhs_c) and _glob(rhs.strip(), rhs_c):
+                        if _anchor_condition(b, lp, x, st, cond):
+                            out.add(x)
     return out
 
 
 def _anchor_condition(b, lp, x, st, cond):
     """side conditions of an arithmetic anchor:
-       ''            none
-       'X > 0'       the anchor block is reachable (inside the loop) only through the true edge of `X > 0`
-       'nonzero(Y)'  Y (the step) is provably >= 1 at the anchor"""
+       ''              none
+       'lhs > 0'       the anchor block is reachable only through the true edge of `<assigned place> > 0`
+       'nonzero-step'  the second operand of the assigned `a - b` / `a + b` is provably >= 1 at the anchor"""
     cond = cond.strip()
     if not cond:
         return True
-    if cond.startswith("nonzero(") and cond.endswith(")"):
-        name = cond[8:-1]
-        return _nonzero_named(b, x, name)
-    if cond.endswith("> 0"):
-        ex = cond[:-3].strip()
-        cut = edges_where(b, lambda truth, src, a, s: src is not None and src[0] == "bin" and (
-            (src[1]["bin"] == "Gt" and truth is True and norm(b.expr(src[1]["a"])) == ex and norm(b.expr(src[1]["b"])) == "0_usize") or
-            (src[1]["bin"] == "Ne" and truth is True and norm(b.expr(src[1]["a"])) == ex and norm(b.expr(src[1]["b"])) == "0_usize") or
-            (src[1]["bin"] == "Eq" and truth is False and norm(b.expr(src[1]["a"])) == ex and norm(b.expr(src[1]["b"])) == "0_usize")))
+    if cond == "nonzero-step":
+        pl = op_place(st["rv"]["use"])
+        sd = b.single_def(pl["l"]) if pl is not None else None  # `tmp` or `tmp.0` of a checked operation
+        if sd and sd[0] == "stmt":
+            rv = sd[3].get("rv") or {}
+            if rv.get("bin") in ("Sub", "Add", "SubWithOverflow", "AddWithOverflow") or "bin" in rv:
+                return _nonzero_op(b, rv["b"], x, 4)
+            # checked arithmetic: (a - b) is computed into a tuple first
+            if "use" in rv:
+                pl2 = op_place(rv["use"])
+                sd2 = b.single_def(pl2["l"]) if pl2 is not None else None
+                if sd2 and sd2[0] == "stmt" and "bin" in (sd2[3].get("rv") or {}):
+                    return _nonzero_op(b, sd2[3]["rv"]["b"], x, 4)
+        return False
+    if cond == "lhs > 0":
+        same = lambda op: (lambda p: p is not None and p["l"] == st["lhs"]["l"] and p["p"] == st["lhs"]["p"])(direct_place(b, op))  # noqa: E731
+        zero = lambda op: (op_const(op) or {}).get("int") == 0  # noqa: E731
+        cut = edges_where(b, lambda truth, src, a, s: src is not None and src[0] == "bin" and same(src[1]["a"]) and zero(src[1]["b"]) and (
+            (src[1]["bin"] == "Gt" and truth is True) or (src[1]["bin"] == "Ne" and truth is True) or
+            (src[1]["bin"] == "Eq" and truth is False)))
         return unreachable_without_edges(b, x, cut)
-    return False
-
-
-def _nonzero_named(b, at_bb, name):
-    for l, loc in enumerate(b.locals):
-        if loc.get("name") == name:
-            defs = [r for r in b.defs()[l] if r[0] in ("stmt", "call")]
-            return bool(defs) and all(_nonzero_def(b, r, at_bb, 4) for r in defs)
     return False
 
 
